@@ -601,6 +601,7 @@ var intrinsicNames = map[string]bool{
 	"sync.(*RWMutex).RLock": true, "sync.(*RWMutex).RUnlock": true,
 	"errors.New": true, "fmt.Errorf": true, "fmt.Sprintf": true, "time.Now": true, "time.Time.Unix": true, "time.Time.UnixNano": true,
 	"strconv.Itoa": true,
+	"encoding/binary.littleEndian.PutUint32": true, "encoding/binary.littleEndian.Uint32": true, "hash/crc32.ChecksumIEEE": true,
 	"strings.(*Builder).WriteByte": true, "strings.(*Builder).WriteString": true, "strings.(*Builder).Write": true,
 	"strings.(*Builder).String": true, "strings.(*Builder).Len": true, "strings.(*Builder).Grow": true, "strings.(*Builder).Reset": true,
 }
@@ -654,6 +655,34 @@ func (g *Gen) intrinsic(in *ssa.Call, key string, common *ssa.CallCommon, args [
 			g.safeObl("safe-panic", "(>= "+args[1].S+" 0)", reach, pos, "strings.Builder.Grow with negative count panics")
 		case "strings.(*Builder).Reset":
 			g.storeLV(st, lv, `""`)
+		}
+	case "encoding/binary.littleEndian.PutUint32":
+		// exact model: four byte stores (the function panics if len(b) < 4)
+		b, v := args[1], args[2]
+		g.safeObl("safe-idx", "(>= (s-len "+b.S+") 4)", reach, pos, "binary.LittleEndian.PutUint32 needs len(b) >= 4")
+		k, hs := g.elemHeap("Int")
+		g.heapSortsTouch(k, hs)
+		E := g.heapGet(st, k, hs)
+		arr := "(select " + E + " (s-ref " + b.S + "))"
+		for j, d := range []string{"1", "256", "65536", "16777216"} {
+			arr = fmt.Sprintf("(store %s (+ (s-off %s) %d) (mod (div %s %s) 256))", arr, b.S, j, v.S, d)
+		}
+		st.heaps[k] = g.nameHeap(k, hs, "(store "+E+" (s-ref "+b.S+") "+arr+")")
+	case "encoding/binary.littleEndian.Uint32":
+		b := args[1]
+		g.safeObl("safe-idx", "(>= (s-len "+b.S+") 4)", reach, pos, "binary.LittleEndian.Uint32 needs len(b) >= 4")
+		k, hs := g.elemHeap("Int")
+		g.heapSortsTouch(k, hs)
+		E := g.heapGet(st, k, hs)
+		el := func(j int) string {
+			return fmt.Sprintf("(select (select %s (s-ref %s)) (+ (s-off %s) %d))", E, b.S, b.S, j)
+		}
+		def(fmt.Sprintf("(+ %s (* 256 %s) (* 65536 %s) (* 16777216 %s))", el(0), el(1), el(2), el(3)))
+	case "hash/crc32.ChecksumIEEE":
+		g.Ctx.declCRC()
+		if in != nil {
+			sv := g.define(in, "(ext.crc32 "+g.bytesToString(args[0].S, st)+")")
+			g.addFact(g.rangeFact(sv.S, in.Type()))
 		}
 	case "strings.HasPrefix":
 		g.uses["str"] = true
@@ -985,4 +1014,13 @@ func (c *Ctx) declBytestr() {
 		"(forall ((a (Array Int Int)) (o Int) (n Int)) (! (=> (>= n 0) (= (str.len (ext.bytestr a o n)) n)) :pattern ((ext.bytestr a o n))))",
 		"(forall ((a (Array Int Int)) (o Int) (n Int) (i Int)) (! (=> (and (<= 0 i) (< i n) (<= 0 (select a (+ o i))) (<= (select a (+ o i)) 255)) (= (str.to_code (str.at (ext.bytestr a o n) i)) (select a (+ o i)))) :pattern ((str.at (ext.bytestr a o n) i))))",
 		"(forall ((a (Array Int Int)) (o Int)) (! (= (ext.bytestr a o 0) \"\") :pattern ((ext.bytestr a o 0))))")
+}
+
+func (c *Ctx) declCRC() {
+	if c.declared["ext.crc32"] {
+		return
+	}
+	c.uses["str"] = true
+	c.declareFun("ext.crc32", []string{"String"}, "Int")
+	c.trusted["hash/crc32.ChecksumIEEE is an uninterpreted function of the byte string (collisions are not considered)"] = true
 }
